@@ -74,6 +74,7 @@ def plan(tier):
         p.append((S.T2(shared=S.VM1_CHAIN[:1]).variant("/shared=install,ALL-SCHEDULES"), 99, 4))
     # configuration matrix: worker kinds x reuse scopes x slot bindings (same selection, default schedule and single deviations)
     p += S.config_matrix(S.T2, tier)
+    p += [(scn.variant(",lazy"), k, w) for scn, k, w in S.config_matrix(lambda nets, **kw: S.T3(nets, lazy=True, **kw), tier, k_quick=0, k_thorough=1)]
     return p
 
 
@@ -83,7 +84,7 @@ def matcher(known, v):
 
 
 def run(tier, seed):
-    return checkbase.run_e1("C01", tier, seed, TECH, (lambda: plan(tier)), monitors.c01, 420, 2400,
+    return checkbase.run_e1("C01", tier, seed, TECH, (lambda: plan(tier)), monitors.c01, 600, 2400,
                             "executions = complete runs of the real traversal, one per choice sequence (durations, PASS/FAIL outcomes = placement of failing tests, "
                             "tie order) with at most k non-default choices, from each enumerated initial population of the shared and own pools; "
                             "distinct = distinct (scenario incl. initial pools, (worker,test,status) sequence)",
